@@ -63,7 +63,7 @@ THEOREMS = ["Marwood.Proofs.C12." + t for t in [
 
 CHEAP = ["pairs", "vectors", "strings", "symbols", "bignums"]
 MEDIUM = ["closures", "continuations"]
-COMPILING = ["eval", "toplevel", "mixed", "errors", "syntaxerrors", "unbound", "globalrefs"]
+COMPILING = ["eval", "toplevel", "mixed", "errors", "syntaxerrors", "unbound", "globalrefs", "evallex"]
 
 
 def streams(ctx):
